@@ -650,6 +650,18 @@ class Exec(object):
             return i64v(-2**63)
         if s in ('core::num::<impl i64>::MAX', 'i64::MAX'):
             return i64v(2**63 - 1)
+        fc = {'NAN': z3.fpNaN(F64), 'EPSILON': z3.FPVal(2.220446049250313e-16, F64), 'MAX': z3.FPVal(1.7976931348623157e308, F64), 'MIN': z3.FPVal(-1.7976931348623157e308, F64),
+              'MIN_POSITIVE': z3.FPVal(2.2250738585072014e-308, F64)}
+        mfc = re.fullmatch(r'(?:core::)?f64::(?:<impl f64>::)?(NAN|EPSILON|MAX|MIN|MIN_POSITIVE)', s)
+        if mfc:
+            return Fl(fc[mfc.group(1)])
+        mic = re.fullmatch(r'(?:core::num::<impl )?(i64|u64|usize|i32|u32|u8)(?:>)?::(MIN|MAX)', s)
+        if mic:
+            ty = mic.group(1)
+            bits = INT_BITS[ty]
+            sg = ty[0] == 'i'
+            v = ((-(1 << (bits - 1))) if mic.group(2) == 'MIN' else ((1 << (bits - 1)) - 1)) if sg else (0 if mic.group(2) == 'MIN' else (1 << bits) - 1)
+            return Int(z3.BitVecVal(v, bits), sg)
         if s in ('core::f64::<impl f64>::INFINITY', 'f64::INFINITY'):
             return Fl(z3.fpPlusInfinity(F64))
         if s in ('core::f64::<impl f64>::NEG_INFINITY', 'f64::NEG_INFINITY'):
